@@ -284,6 +284,8 @@ class Fn:
             return f"({e} != 0)"
         if t == "QSet":
             return f"(!QSet.isEmpty {par(e)})"
+        if t.startswith("Opt:List:"):
+            return f"(Option.elim {par(e)} false (fun v => !List.isEmpty v))"      # None and the empty list are both falsy
         if t in ("Opt:Bytes", "Opt:Str"):
             return f"(Option.elim {par(e)} false (fun v => !List.isEmpty v))"      # None and the empty string are both falsy
         if t.startswith("Opt:"):
@@ -677,6 +679,10 @@ class Fn:
         if tb == "Bytes" and self.t.get("bytes_elem") == "Char" and not isinstance(node.slice, ast.Slice):
             i = self.nat_index(node.slice, env)
             return (f"(List.getD {par(base)} {par(i)} default)", "BChar")     # one byte of a byte string (IndexError: totalised)
+        if tb.startswith("List:") and isinstance(node.slice, ast.Slice) and node.slice.upper is None and node.slice.step is None \
+                and node.slice.lower is not None and tb not in ("List:_",) and not tb.startswith("List:Rec:Unpacked"):
+            lo_ = self.nat_index(node.slice.lower, env)
+            return (f"(List.drop {par(lo_)} {par(base)})", tb)            # xs[k:]
         if tb == "List:Bytes" and not isinstance(node.slice, ast.Slice):
             i = self.nat_index(node.slice, env)
             if "IndexError" in self.t.get("raises", {}):
@@ -1221,6 +1227,10 @@ class Fn:
             ai, bi = as_int(*l), as_int(*r)
             self.div_check(f"({bi} == 0)", r[1], ast.unparse(node))
             return (f"((Int.fdiv {par(ai)} {par(bi)}), (Int.fmod {par(ai)} {par(bi)}))", "Tuple:Int,Int")
+        if fname == "bytes" and len(args) == 1 and not kw and self.t.get("bytes_elem") == "Char":
+            e, t = self.expr(args[0], env)
+            if t == "Bytes":
+                return (e, t)          # bytes(b) of a byte string (or bytearray view of one): the same bytes
         if fname == "set" and not args and not kw:
             return ("[]", "List:_")
         if fname == "tuple" and len(args) == 1 and not kw:
@@ -1940,6 +1950,18 @@ class Fn:
                 a = self.block(list(none_branch), env, nxt, ind + 1)
                 b = self.block(list(some_branch), env_some, nxt, ind + 1)
                 return f"{pad}Option.elim {par(xe)} (\n{a}) (fun {self.lean_name(x)} =>\n{b})"
+        if (isinstance(tt, ast.UnaryOp) and isinstance(tt.op, ast.Not) and isinstance(tt.operand, ast.Name) and tt.operand.id in env
+                and env[tt.operand.id] is not None and env[tt.operand.id][1].startswith("Opt:List:") and not s.orelse and not self.falls(s.body)):
+            # `if not X: <leaves>` on a list-or-None value: afterwards X is a non-empty list
+            x = tt.operand.id
+            xe, xt = env[x]
+            env_some = dict(env)
+            env_some[x] = (self.lean_name(x), xt[4:])
+            a = self.block(list(s.body), env, nxt, ind + 1)
+            a2 = self.block(list(s.body), env_some, nxt, ind + 2)
+            b = self.block(rest, env_some, cont, ind + 2)
+            lx = self.lean_name(x)
+            return (f"{pad}Option.elim {par(xe)} (\n{a}) (fun {lx} =>\n{pad}  if (List.isEmpty {lx}) then\n{a2}\n{pad}  else\n{b})")
         c = self.cond(s.test, env)
         leaves = self.fall_leaves(s.body) + self.fall_leaves(s.orelse)
         if leaves <= 1 or (not rest and getattr(cont, "cheap", False)):
